@@ -225,6 +225,9 @@ func (e *Enc) encodeCall(instr ssa.CallInstruction, v *ssa.Call, st *State) {
 		e.encodeBuiltin(b, common, v, st, instr)
 		return
 	}
+	if e.encodeSortCall(common, st) {
+		return
+	}
 	s := e.sorts()
 	ct := e.resolveCall(common)
 	sig := ct.sig
@@ -258,6 +261,11 @@ func (e *Enc) encodeCall(instr ssa.CallInstruction, v *ssa.Call, st *State) {
 		for i, n := range names {
 			if i < len(args) {
 				vars[n] = args[i]
+			}
+		}
+		if hasRecv && len(args) > 0 {
+			if _, taken := vars["recv"]; !taken {
+				vars["recv"] = args[0]
 			}
 		}
 		// variadic parameters arrive as a slice already in SSA
@@ -318,10 +326,15 @@ func (e *Enc) encodeCall(instr ssa.CallInstruction, v *ssa.Call, st *State) {
 
 	if cc != nil {
 		rv := bindResultNames(sig, resTV)
-		all := mergeVars(vars, rv)
+		all := mergeVars(rv, vars)
 		for i, cl := range cc.Ensures {
 			c := e.calleeCtx(cc, st, oldSt, all, fmt.Sprintf("%s ensures#%d at call in %s", ct.key, i+1, e.key))
 			e.fact(c.boolTerm(cl.E))
+		}
+		for i, cl := range cc.Marks {
+			c := e.calleeCtx(cc, st, oldSt, all, fmt.Sprintf("%s marks#%d at call in %s", ct.key, i+1, e.key))
+			e.fact(c.boolTerm(cl.E))
+			e.assumed["marker (free postcondition) of "+ct.key+": "+cl.Src] = true
 		}
 	}
 }
@@ -531,22 +544,26 @@ func (e *Enc) encodeAppend(args []ssa.Value, v *ssa.Call, st *State) {
 	var ain, afr string
 	afr = e.declare("ap$"+id+"$afr", arrSort)
 	qj := "qj!" + id
-	e.fact(fmt.Sprintf("(forall ((%s Int)) (! (=> (and (<= 0 %s) (< %s %s)) (= (select %s %s) (select %s (+ (s.off %s) %s)))) :pattern ((select %s %s))))",
+	// fresh array: prefix copied from the old slice
+	e.fact(fmt.Sprintf("(forall ((%s Int)) (! (=> (and (<= 0 %s) (< %s %s)) (= (select %s %s) (select %s (at (s.off %s) %s)))) :pattern ((select %s %s))))",
 		qj, qj, qj, slen, afr, qj, Es, x, qj, afr, qj))
 	if cl, ok := constLenOf(args[1]); ok && cl <= 8 {
 		ainT := Es
 		for i := int64(0); i < cl; i++ {
-			el := fmt.Sprintf("(select %s (+ (s.off %s) %d))", Et, t, i)
-			ainT = fmt.Sprintf("(store %s (+ (s.off %s) %s %d) %s)", ainT, x, slen, i, el)
+			el := fmt.Sprintf("(select %s (at (s.off %s) %d))", Et, t, i)
+			ainT = fmt.Sprintf("(store %s (at (s.off %s) (+ %s %d)) %s)", ainT, x, slen, i, el)
 			e.fact(fmt.Sprintf("(= (select %s (+ %s %d)) %s)", afr, slen, i, el))
 		}
 		ain = e.define("ap$"+id+"$ain", arrSort, ainT)
 	} else {
 		ain = e.declare("ap$"+id+"$ain", arrSort)
-		e.fact(fmt.Sprintf("(forall ((%s Int)) (! (= (select %s %s) (ite (and (<= (+ (s.off %s) %s) %s) (< %s (+ (s.off %s) %s))) (select %s (+ (s.off %s) (- %s (+ (s.off %s) %s)))) (select %s %s))) :pattern ((select %s %s))))",
-			qj, ain, qj, x, slen, qj, qj, x, n, Et, t, qj, x, slen, Es, qj, ain, qj))
-		e.fact(fmt.Sprintf("(forall ((%s Int)) (! (=> (and (<= %s %s) (< %s %s)) (= (select %s %s) (select %s (+ (s.off %s) (- %s %s))))) :pattern ((select %s %s))))",
-			qj, slen, qj, qj, n, afr, qj, Et, t, qj, slen, afr, qj))
+		// in place: cells off+slen .. off+n-1 receive t, all other cells are unchanged
+		e.fact(fmt.Sprintf("(forall ((%s Int)) (! (=> (and (<= 0 %s) (< %s %s)) (= (select %s (at (s.off %s) (+ %s %s))) (select %s (at (s.off %s) %s)))) :pattern ((select %s (at (s.off %s) %s)))))",
+			qj, qj, qj, tlen, ain, x, slen, qj, Et, t, qj, Et, t, qj))
+		e.fact(fmt.Sprintf("(forall ((%s Int)) (! (=> (or (< %s (+ (s.off %s) %s)) (>= %s (+ (s.off %s) %s))) (= (select %s %s) (select %s %s))) :pattern ((select %s %s))))",
+			qj, qj, x, slen, qj, x, n, ain, qj, Es, qj, ain, qj))
+		e.fact(fmt.Sprintf("(forall ((%s Int)) (! (=> (and (<= 0 %s) (< %s %s)) (= (select %s (+ %s %s)) (select %s (at (s.off %s) %s)))) :pattern ((select %s (at (s.off %s) %s)))))",
+			qj, qj, qj, tlen, afr, slen, qj, Et, t, qj, Et, t, qj))
 	}
 	ncap := e.declare("ap$"+id+"$cap", "Int")
 	e.fact("(>= " + ncap + " " + n + ")")
@@ -591,6 +608,7 @@ func (e *Enc) encodeCopy(args []ssa.Value, v *ssa.Call, st *State) {
 	qj := "qc!" + id
 	Ed := "(select " + E + " (s.arr " + d + "))"
 	Esrc := "(select " + E + " (s.arr " + src + "))"
+	// absolute-index form: cells doff .. doff+n-1 receive src, all other cells are unchanged
 	e.fact(fmt.Sprintf("(forall ((%s Int)) (! (= (select %s %s) (ite (and (<= (s.off %s) %s) (< %s (+ (s.off %s) %s))) (select %s (+ (s.off %s) (- %s (s.off %s)))) (select %s %s))) :pattern ((select %s %s))))",
 		qj, na, qj, d, qj, qj, d, n, Esrc, src, qj, d, Ed, qj, na, qj))
 	nh := e.define(e.freshName(h.Name), h.Sort, fmt.Sprintf("(ite (= %s 0) %s (store %s (s.arr %s) %s))", n, E, E, d, na))
@@ -598,4 +616,76 @@ func (e *Enc) encodeCopy(args []ssa.Value, v *ssa.Call, st *State) {
 	if v != nil {
 		e.setVal(v, "Int", n)
 	}
+}
+
+// encodeSortCall models sort.Sort / sort.Stable applied to a slice-typed value whose
+// Less method is under contract (assumed contract of package sort): the elements are
+// permuted (skolemised both ways), every other backing array is untouched, and the
+// result is ordered with respect to the postcondition of Less.
+func (e *Enc) encodeSortCall(common *ssa.CallCommon, st *State) bool {
+	sc := common.StaticCallee()
+	if sc == nil || sc.Pkg == nil || sc.Pkg.Pkg.Path() != "sort" || (sc.Name() != "Sort" && sc.Name() != "Stable") || len(common.Args) != 1 {
+		return false
+	}
+	mi, ok := common.Args[0].(*ssa.MakeInterface)
+	if !ok {
+		return false
+	}
+	sl, ok := mi.X.Type().Underlying().(*types.Slice)
+	if !ok {
+		return false
+	}
+	n := namedOf(mi.X.Type())
+	if n == nil || n.Obj().Pkg() == nil {
+		return false
+	}
+	lessKey := n.Obj().Pkg().Path() + "." + n.Obj().Name() + ".Less"
+	lc := e.ctx.contracts.Funcs[lessKey]
+	if lc == nil {
+		return false
+	}
+	s := e.sorts()
+	h := s.ElemHeap(sl.Elem())
+	x := e.term(mi.X)
+	old := st.get(h)
+	id := fmt.Sprint(e.count("sortcall"))
+	nh := e.declare("sort$"+id+"$"+h.Name, h.Sort)
+	st.set(h, nh)
+	perm, inv := q("sort$"+id+"$perm"), q("sort$"+id+"$inv")
+	e.emit(fmt.Sprintf("(declare-fun %s (Int) Int)", perm))
+	e.emit(fmt.Sprintf("(declare-fun %s (Int) Int)", inv))
+	newArr := "(select " + nh + " (s.arr " + x + "))"
+	oldArr := "(select " + old + " (s.arr " + x + "))"
+	qi := "qs!" + id
+	e.fact(fmt.Sprintf("(forall ((%s Int)) (! (=> (and (<= 0 %s) (< %s (s.len %s))) (and (<= 0 (%s %s)) (< (%s %s) (s.len %s)) (= (select %s (at (s.off %s) %s)) (select %s (at (s.off %s) (%s %s)))))) :pattern ((select %s (at (s.off %s) %s)))))",
+		qi, qi, qi, x, perm, qi, perm, qi, x, newArr, x, qi, oldArr, x, perm, qi, newArr, x, qi))
+	e.fact(fmt.Sprintf("(forall ((%s Int)) (! (=> (and (<= 0 %s) (< %s (s.len %s))) (and (<= 0 (%s %s)) (< (%s %s) (s.len %s)) (= (select %s (at (s.off %s) (%s %s))) (select %s (at (s.off %s) %s))))) :pattern ((select %s (at (s.off %s) %s)))))",
+		qi, qi, qi, x, inv, qi, inv, qi, x, newArr, x, inv, qi, oldArr, x, qi, oldArr, x, qi))
+	// other arrays unchanged
+	e.fact(fmt.Sprintf("(forall ((%s Int)) (! (=> (not (= %s (s.arr %s))) (= (select %s %s) (select %s %s))) :pattern ((select %s %s))))", qi, qi, x, nh, qi, old, qi, nh, qi))
+	// cells of the same array outside the slice unchanged
+	e.fact(fmt.Sprintf("(forall ((%s Int)) (! (=> (or (< %s (s.off %s)) (>= %s (+ (s.off %s) (s.len %s)))) (= (select %s %s) (select %s %s))) :pattern ((select %s %s))))", qi, qi, x, qi, x, x, newArr, qi, oldArr, qi, newArr, qi))
+	// ordered w.r.t. Less: for a < b, !Less(b, a)
+	var lessExpr Expr
+	for _, cl := range lc.Ensures {
+		if b, ok := cl.E.(*EBinary); ok && (b.Op == "<==>" || b.Op == "==") {
+			if id, ok := b.X.(*EIdent); ok && id.Name == "result" {
+				lessExpr = b.Y
+			}
+		}
+	}
+	lessFn := e.ctx.funcByKey[lessKey]
+	if lessExpr != nil && lessFn != nil && len(lessFn.Params) == 3 {
+		qa, qb := "qa!"+id, "qb!"+id
+		vars := map[string]TV{
+			lessFn.Params[0].Name(): {Term: x, Sort: "Slice", T: mi.X.Type()},
+			lessFn.Params[1].Name(): {Term: qb, Sort: "Int", T: types.Typ[types.Int]},
+			lessFn.Params[2].Name(): {Term: qa, Sort: "Int", T: types.Typ[types.Int]},
+		}
+		c := e.calleeCtx(lc, st, nil, vars, "sorted-by "+lessKey)
+		body := c.boolTerm(lessExpr)
+		e.fact(fmt.Sprintf("(forall ((%s Int) (%s Int)) (=> (and (<= 0 %s) (< %s %s) (< %s (s.len %s))) (not %s)))", qa, qb, qa, qa, qb, qb, x, body))
+	}
+	e.assumed["sort."+sc.Name()+" (permutes its argument; ordered by the contract of "+lessKey+")"] = true
+	return true
 }
